@@ -71,4 +71,21 @@ CORPUS = [
         benign=True),
     Mut('c11-benign-notify-fire', OPS, 'ScalerOperator._step', 'self.parameters[index].tensor = p',
         'self.parameters[index].fire_parameter_changed()', benign=True),
+    Mut('c11-benign-inplace-followed-by-notification', 'torchtree/inference/hmc/operator.py', '', "        self._mass_matrix.tensor = m.tensor\n", "        self._mass_matrix.tensor.copy_(m.tensor)\n        self._mass_matrix.fire_parameter_changed()\n", benign=True, mode='text'),
+    Mut('c11-inplace-copy-without-notification', 'torchtree/inference/hmc/operator.py', '', "        self._mass_matrix.tensor = m.tensor\n", "        self._mass_matrix.tensor.copy_(m.tensor)\n", expect=[('C11.W', 'HMCOperator._load_state_dict')], mode='text'),
+    Mut('c11-transform-cache-on', 'torchtree/evolution/tree_model.py', '', "            self.transform = GeneralNodeHeightTransform(self)\n        else:", "            self.transform = GeneralNodeHeightTransform(self, cache_size=1)\n        else:", expect=[('C11.X', 'GeneralNodeHeightTransform(self, cache_size=1)')], mode='text'),
+    Mut('c11-benign-transform-cache-explicitly-off', 'torchtree/evolution/tree_model.py', '', "            self.transform = GeneralNodeHeightTransform(self)\n        else:", "            self.transform = GeneralNodeHeightTransform(self, cache_size=0)\n        else:", benign=True, mode='text'),
+    Mut('c11-flag-cleared-without-refresh', 'torchtree/evolution/site_model.py', '', "    def probabilities(self) -> torch.Tensor:\n        if self.needs_update:\n            self.update_rates(self._parameter.tensor, self.invariant)\n            self.needs_update = False",
+        "    def probabilities(self) -> torch.Tensor:\n        if self.needs_update:\n            if self._rates is None:\n                self.update_rates(self._parameter.tensor, self.invariant)\n            self.needs_update = False", expect=[('C11.F', 'UnivariateDiscretizedSiteModel.probabilities')], mode='text'),
+    Mut('c11-benign-extra-conditional-work-in-refresh', 'torchtree/evolution/site_model.py', '', "    def probabilities(self) -> torch.Tensor:\n        if self.needs_update:\n            self.update_rates(self._parameter.tensor, self.invariant)\n            self.needs_update = False",
+        "    def probabilities(self) -> torch.Tensor:\n        if self.needs_update:\n            self.update_rates(self._parameter.tensor, self.invariant)\n            if self._mu is not None:\n                self._last_mu = self._mu.tensor\n            self.needs_update = False", benign=True, mode='text'),
+    Mut('c11-memo-key-misses-argument', 'torchtree/evolution/site_pattern.py', '', "    def compute_tips_partials(self, use_ambiguities=False):\n        return compress_alignment(self.alignment, self.indices, use_ambiguities)",
+        "    def compute_tips_partials(self, use_ambiguities=False):\n        if self._cache is None:\n            self._cache = compress_alignment(self.alignment, self.indices, use_ambiguities)\n        return self._cache", expect=[('C11.M', 'SitePattern.compute_tips_partials')], mode='text',
+        more=[dict(scope='', old="        self.indices = indices\n", new="        self.indices = indices\n        self._cache = None\n", mode='text')]),
+    Mut('c11-benign-memo-keyed-by-argument', 'torchtree/evolution/site_pattern.py', '', "    def compute_tips_partials(self, use_ambiguities=False):\n        return compress_alignment(self.alignment, self.indices, use_ambiguities)",
+        "    def compute_tips_partials(self, use_ambiguities=False):\n        if use_ambiguities not in self._cache:\n            self._cache[use_ambiguities] = compress_alignment(self.alignment, self.indices, use_ambiguities)\n        return self._cache[use_ambiguities]", benign=True, mode='text',
+        more=[dict(scope='', old="        self.indices = indices\n", new="        self.indices = indices\n        self._cache = {}\n", mode='text')]),
+    Mut('c11-logger-reads-cached-value', 'torchtree/core/logger.py', '', "                log_p = obj()\n                if len(log_p.shape) == 0 or log_p.shape[-1] <= 1:\n                    row.append(log_p.item())\n                else:\n                    row.append(log_p.sum(-1).item())\n        self.writer.writerow(row)",
+        "                log_p = obj.lp\n                if len(log_p.shape) == 0 or log_p.shape[-1] <= 1:\n                    row.append(log_p.item())\n                else:\n                    row.append(log_p.sum(-1).item())\n        self.writer.writerow(row)", expect=[('C11.B', 'Logger.log')], mode='text'),
+    Mut('c11-requires-grad-setter-silent', 'torchtree/core/parameter.py', '', "        self._tensor.requires_grad = requires_grad\n        self.fire_parameter_changed()\n", "        self._tensor.requires_grad = requires_grad\n", expect=[('C11.W', 'Parameter::requires_grad.setter')], mode='text'),
 ]
